@@ -847,6 +847,8 @@ Proof. intros H. unfold setup_coords. exact (nth_tab _ _ j [] H). Qed.
 From EPG Require Import QI Ops.
 Section Agree.
 Notation T := (triple QIops).
+Local Notation mk3 := (@mk3 QIops). Local Notation mkM := (@mkM QIops). Local Notation mkSM := (@mkSM QIops).
+Local Notation t0 := (@t0 QIops). Local Notation OShift := (@OShift QIops). Local Notation OMatrix := (@OMatrix QIops).
 Definition ag_mat : mat3 QIops :=
   mkM (mk3 (qi 1 2 1 2) (qi 1 2 0 1) (qi 0 1 (-1) 2))
       (mk3 (qi 1 2 0 1) (qi 1 2 (-1) 2) (qi 0 1 1 2))
